@@ -34,6 +34,26 @@ func compareLayout(r *Report, rule, kind, pos string, table *Layout, recs [][5]s
 			if i := strings.Index(row[2], "[*]"); i > 0 && strings.HasPrefix(row[2], "enc(") && row[4] != "" {
 				row[4] = dropEmptinessGuards(row[4], row[2][len("enc("):i])
 			}
+			// a byte-slice field copied as a whole: "the slice is not nil / not empty" says nothing (a nil slice
+			// contributes no bytes)
+			if strings.HasPrefix(row[2], "$.") && !strings.ContainsAny(row[2], "()[") && row[4] != "" {
+				row[4] = dropEmptinessGuards(row[4], row[2])
+			}
+			// the default arm of a switch over codes is the negation of its cases
+			if strings.Contains(row[4], "default(") {
+				var out []string
+				for _, g := range strings.Split(row[4], " && ") {
+					if strings.HasPrefix(g, "default(") && strings.HasSuffix(g, ")") {
+						c := "false"
+						for _, alt := range strings.Split(g[len("default("):len(g)-1], "|") {
+							c = orCond(c, alt)
+						}
+						g = negCond(c)
+					}
+					out = append(out, g)
+				}
+				row[4] = strings.Join(out, " && ")
+			}
 			return row
 		}
 		nt := *table
@@ -149,7 +169,7 @@ func runC03(w *World, r *Report) {
 	declenRule(w, r)
 	r.Rule("oxmlen", "constructors and editors of match fields leave oxm_length equal to the payload bytes", 40)
 	oxmLenRule(w, r)
-	r.Rule("order", "builders only extend the lists the encoder walks; they never reassign elements in place", 7)
+	r.Rule("order", "builders only extend the lists the encoder walks; they never reassign elements in place", 5)
 	orderRule(w, r)
 	r.Rule("wirelen", "the declared length each encoder puts on the wire equals the bytes the element occupies at the moment of encoding", 34)
 	if ak, ik, ok := elementKinds(w); ok {
